@@ -197,7 +197,7 @@ type c18Time struct {
 
 type c18Mut struct {
 	Cat    string // "", "byte", "sig-octet", "swap-sig", "wrong-key-named", "raw-resign", "authority-text", "sign-key-text"
-	Op     int    // byte: 0 flip bit, 1 set byte, 2 insert byte, 3 delete byte; sig-octet: 0 set octet Pos of the decoded signature to Val, 1 rewrite the bit count of the RSA value keeping its octet count, 2 set the packet length octet to Val
+	Op     int    // byte: 0 flip bit, 1 set byte, 2 insert byte, 3 delete byte; sig-octet: 0 set octet Pos of the decoded signature to Val, 1 rewrite the bit count of the RSA value keeping its octet count, 2 set the packet length octet to Val, 3 spell the packet tag octet in the old header format
 	Region int    // byte: 0 signed content, 1 signature field, 2 anywhere
 	Pos    int    // byte: offset modulo region length
 	Val    int    // byte: bit number / byte value
@@ -424,10 +424,12 @@ func c18SigBytes(field []byte) ([]byte, bool) {
 //	"length-octet"  the packet length octet of b overstates the real length
 //	                (as a one-octet length, or as a partial-length first chunk
 //	                that spans the whole packet), everything else identical
+//	"old-format-tag" the packet tag octet is spelled as an old-format header
+//	                (0x88: tag 2, one-octet length) instead of 0xC2
 //	"mpi-bitcount"  the two-octet bit count in front of the RSA value differs
 //	                but stands for the same number of value octets
 //
-// Anything else gives "".  It isolates known findings F-C18-1 / F-C18-2.
+// Anything else gives "".  It isolates findings F-C18-1 / F-C18-2 / F-C18-3.
 func c18Framing(a, b []byte) string {
 	if len(a) != len(b) || len(a) < 12 {
 		return ""
@@ -440,6 +442,9 @@ func c18Framing(a, b []byte) string {
 		if a[i] != b[i] {
 			diff = append(diff, i)
 		}
+	}
+	if len(diff) == 1 && diff[0] == 1 && b[1] == 0x88 {
+		return "old-format-tag"
 	}
 	if len(diff) == 1 && diff[0] == 2 {
 		// declared length larger than the packet: either still a one-octet
@@ -513,6 +518,12 @@ func c18MutateSig(sig []byte, m c18Mut) []byte {
 		fallthrough
 	case 0:
 		out[int(uint64(m.Pos)*2654435761%uint64(len(out)))] = byte(m.Val)
+	case 3:
+		// 0xC2 = new-format header, tag 2; 0x88 = old-format header, tag 2
+		// with a one-octet length: the length octet that follows reads the same
+		if out[1] == 0xC2 {
+			out[1] = 0x88
+		}
 	default:
 		out[2] = byte(m.Val)
 	}
@@ -800,6 +811,8 @@ func c18Run(c c18Case) (verifkit.Outcome, error) {
 				switch c18Framing(origSig, sig2) {
 				case "length-octet":
 					return o, verifkit.Knownf("F-C18-1", "signature packet length octet overstated (%d -> %d), all signature fields identical, still accepted: %v", origSig[2], sig2[2], err)
+				case "old-format-tag":
+					return o, verifkit.Knownf("F-C18-3", "signature packet header spelled in the old format (0xC2 -> 0x88), all signature fields identical, still accepted: %v", err)
 				case "mpi-bitcount":
 					return o, verifkit.Knownf("F-C18-2", "bit count of the RSA signature value changed (same value octets), all signature fields identical, still accepted: %v", err)
 				}
@@ -882,7 +895,7 @@ func c18Gen(t *rapid.T) c18Case {
 	case "byte":
 		if rapid.IntRange(0, 7).Draw(t, "sigoctet") == 0 {
 			c.Mut = c18Mut{Cat: "sig-octet",
-				Op:  rapid.SampledFrom([]int{0, 0, 0, 0, 0, 0, 1, 2}).Draw(t, "sop"),
+				Op:  rapid.SampledFrom([]int{0, 0, 0, 0, 0, 0, 1, 2, 3}).Draw(t, "sop"),
 				Pos: rapid.IntRange(0, 4095).Draw(t, "spos"),
 				Val: rapid.IntRange(0, 255).Draw(t, "sval"),
 			}
